@@ -102,7 +102,7 @@ let () =
   (try
      while true do
        let line = input_line ic in
-       let toks = String.split_on_char ' ' line |> List.filter (fun s -> s <> "") in
+       let toks = String.split_on_char ' ' line |> List.filter (fun s -> s <> "" && s.[0] <> '#') in
        let (m, sp) = run_case toks in
        print_obs oc m; print_obs os sp
      done
